@@ -1,14 +1,15 @@
 SPECIFICATION Spec
 CONSTANTS
-  Family = "compact"
-  NTs = 4
+  Family = "read"
+  NTs = 3
   NFiles = 2
   NKeys = 1
   MaxBlocks = 2
-  TombMode = "one"
+  TombMode = "each"
   KeyMode = "full"
   MaxLen = 0
   PPBs <- PPBSmall
-  Picks <- NoPicks
-INVARIANTS LWWIsFold CompactLemmas
+  NPicks = 0
+  PickAt <- NoPick
+INVARIANTS LWWIsFold ReadLemmas
 CHECK_DEADLOCK FALSE
